@@ -360,7 +360,7 @@ def replay_detail(ctx, detail: dict, want: str) -> bool:
     P = detail["program"]
     names = detail["passes"].split("+")
     r = passrun.run_program(P, detail.get("program_id", 0), ctx.seed, pass_names=None, with_sequences=False) if False else None
-    proto = passrun.rewrite.concretize(P, variant=detail.get("program_id", 0))
+    proto = passrun.rewrite.concretize(P, variant=passrun.variant_for(P, detail.get("program_id", 0)))
     model = ir.from_proto(onnx.load_from_string(proto.SerializeToString()))
     before = passrun.ser(model)
     passes = [passrun.PASSES[n]() for n in names]
